@@ -243,13 +243,13 @@ Section BlockGenProofs.
       exists s, bg_sum_exact (bg_txns g) = Some s /\ ti_cost (gs_tii g) = bic + s /\
                 ti_cost (gs_tii g) <= bc_maxcost cfg.
 
-    Hypothesis Hmax : bc_maxcost cfg < 2 ^ 62.
+    Hypothesis Hmax : bc_maxcost cfg < 2 ^ 63.
     Hypothesis Hbic : 0 <= bic.
 
     (* one guarded attempt: cost test, processor, cost update (shared by both loops) *)
     Lemma bg_cinv_attempt g t c g1 :
-      bg_cinv g -> bt_cost t = Some c -> 0 <= c < 2 ^ 62 ->
-      (bc_maxcost cfg <=? bg_wrap (ti_cost (gs_tii g) + c)) = false ->
+      bg_cinv g -> bt_cost t = Some c -> 0 <= c < 2 ^ 63 ->
+      (bg_wrap (bc_maxcost cfg - ti_cost (gs_tii g)) <=? c) = false ->
       process cfg g t = (g1, true) -> bg_cinv (bg_add_cost state g1 c).
     Proof.
       intros [Hok [s [Hs [Hc Hle]]]] Hct Hr Hlim Hp.
@@ -267,6 +267,12 @@ Section BlockGenProofs.
         + rewrite Hcost. rewrite bg_wrap_small by lia. lia.
     Qed.
 
+    Lemma bg_inv_mark_invalid g t : bg_inv g -> bg_inv (bg_mark_invalid state g t).
+    Proof. intros [H1 H2 H3 H4 H5 H6 H7]. constructor; auto. Qed.
+
+    Lemma bg_cinv_mark_invalid g t : bg_cinv g -> bg_cinv (bg_mark_invalid state g t).
+    Proof. intros H. exact H. Qed.
+
     Lemma bg_cinv_fail g t g1 : bg_cinv g -> process cfg g t = (g1, false) -> bg_cinv g1.
     Proof.
       intros [Hok [s [Hs [Hc Hle]]]] Hp.
@@ -277,11 +283,11 @@ Section BlockGenProofs.
     Qed.
 
     Definition bg_pool_costs_ok (l : list bg_txn) : Prop :=
-      forall t c, In t l -> bt_cost t = Some c -> 0 <= c < 2 ^ 62.
+      forall t c, In t l -> bt_cost t = Some c -> 0 <= c < 2 ^ 63.
 
     (* ---------- the iteration over the pool ---------- *)
     Lemma bg_iterate_inv pool g g1 :
-      (forall t, In t pool -> Q t) -> bg_inv g ->
+      (forall t, In t pool -> bt_fname t = 0 -> Q t) -> bg_inv g ->
       bg_iterate state apply snonce cfg g pool = Some g1 -> bg_inv g1.
     Proof.
       revert g. induction pool as [|t r IH]; simpl; intros g Hq Hi He.
@@ -289,9 +295,11 @@ Section BlockGenProofs.
       - unfold bg_iter_step in He.
         destruct (bt_valbig t); try discriminate.
         destruct (bt_cost t) as [c|]; [|apply (IH g); auto].
-        destruct (bc_maxcost cfg <=? bg_wrap (ti_cost (gs_tii g) + c)); [apply (IH g); auto|].
+        destruct (Z.eqb_spec (bt_fname t) 0) as [Efn|Efn]; simpl in He;
+          [|apply (IH _ (fun x Hx => Hq x (or_intror Hx)) (bg_inv_mark_invalid g t Hi) He)].
+        destruct (bg_wrap (bc_maxcost cfg - ti_cost (gs_tii g)) <=? c); [apply (IH g); auto|].
         destruct (process cfg g t) as [g2 ok] eqn:Ep.
-        pose proof (bg_inv_process _ _ _ _ Hi (Hq t (or_introl eq_refl)) Ep) as Hi2.
+        pose proof (bg_inv_process _ _ _ _ Hi (Hq t (or_introl eq_refl) Efn) Ep) as Hi2.
         destruct ok; simpl in He.
         + pose proof (bg_inv_add_cost g2 c Hi2) as Hi3.
           destruct (bc_maxbytes cfg <=? ti_bytes (gs_tii g2)).
@@ -310,7 +318,9 @@ Section BlockGenProofs.
         unfold bg_iter_step in He.
         destruct (bt_valbig t); try discriminate.
         destruct (bt_cost t) as [c|] eqn:Ec; [|apply (IH g); auto].
-        destruct (bc_maxcost cfg <=? bg_wrap (ti_cost (gs_tii g) + c)) eqn:El; [apply (IH g); auto|].
+        destruct (Z.eqb_spec (bt_fname t) 0) as [Efn|Efn]; simpl in He;
+          [|apply (IH _ Hq' (bg_cinv_mark_invalid g t Hi) He)].
+        destruct (bg_wrap (bc_maxcost cfg - ti_cost (gs_tii g)) <=? c) eqn:El; [apply (IH g); auto|].
         destruct (process cfg g t) as [g2 ok] eqn:Ep.
         destruct ok; simpl in He.
         + pose proof (bg_cinv_attempt _ _ _ _ Hi Ec (Hq t c (or_introl eq_refl) Ec) El Ep) as Hi3.
@@ -328,7 +338,7 @@ Section BlockGenProofs.
       destruct (nth_error (ti_current (gs_tii g)) i) as [t|] eqn:En; [|inversion He; subst; auto].
       destruct (negb _); [inversion He; subst; auto|].
       destruct (bt_cost t) as [c|]; [|inversion He; subst; auto].
-      destruct (bc_maxcost cfg <=? bg_wrap (ti_cost (gs_tii g) + c)); [inversion He; subst; auto|].
+      destruct (bg_wrap (bc_maxcost cfg - ti_cost (gs_tii g)) <=? c); [inversion He; subst; auto|].
       destruct (process cfg g t) as [g2 ok] eqn:Ep.
       assert (Hq : Q t).
       { destruct (iv_lists _ Hi) as [_ Hc]. rewrite Forall_forall in Hc. apply Hc.
@@ -343,14 +353,14 @@ Section BlockGenProofs.
     Qed.
 
     Lemma bg_cur_loop_cinv fuel g i g1 :
-      (forall t c, Q t -> bt_cost t = Some c -> 0 <= c < 2 ^ 62) ->
+      (forall t c, Q t -> bt_cost t = Some c -> 0 <= c < 2 ^ 63) ->
       bg_inv g -> bg_cinv g -> bg_cur_loop state apply snonce fuel cfg g i = Some g1 -> bg_cinv g1.
     Proof.
       intros Hqc. revert g i. induction fuel as [|f IH]; simpl; intros g i Hv Hi He; try discriminate.
       destruct (nth_error (ti_current (gs_tii g)) i) as [t|] eqn:En; [|inversion He; subst; auto].
       destruct (negb _); [inversion He; subst; auto|].
       destruct (bt_cost t) as [c|] eqn:Ec; [|inversion He; subst; auto].
-      destruct (bc_maxcost cfg <=? bg_wrap (ti_cost (gs_tii g) + c)) eqn:El; [inversion He; subst; auto|].
+      destruct (bg_wrap (bc_maxcost cfg - ti_cost (gs_tii g)) <=? c) eqn:El; [inversion He; subst; auto|].
       destruct (process cfg g t) as [g2 ok] eqn:Ep.
       assert (Hq : Q t).
       { destruct (iv_lists _ Hv) as [_ Hc]. rewrite Forall_forall in Hc. apply Hc.
@@ -454,7 +464,7 @@ Section BlockGenProofs.
 
   (* hypotheses about the configuration and the built-in templates (see Prop/C45.v) *)
   Record bg_bis_ok (cfg : bg_cfg) (pool bis : list bg_txn) (bic : Z) : Prop := {
-    bo_max : bc_maxcost cfg < 2 ^ 62;
+    bo_max : bc_maxcost cfg < 2 ^ 63;
     bo_cost : Forall bg_cost_ok bis;
     bo_sum : bg_sum_exact bis = Some bic;
     bo_le : bic <= bc_maxcost cfg;
@@ -467,13 +477,12 @@ Section BlockGenProofs.
 
   Record bg_pool_ok (pool : list bg_txn) : Prop := {
     po_valid : forall t, In t pool -> bt_valid t = true;
-    po_names : forall t, In t pool -> bt_fname t = 0;
     po_costs : bg_pool_costs_ok pool
   }.
 
   (* everything the generator guarantees about a block it returns *)
   Record bg_gen_facts (cfg : bg_cfg) (st0 : state) (pool bis : list bg_txn) (b : bg_block) : Prop := {
-    gf_split : exists pp bp, bk_txns b = pp ++ bp /\ Forall (fun t => In t pool) (map fst pp) /\
+    gf_split : exists pp bp, bk_txns b = pp ++ bp /\ Forall (fun t => In t pool /\ bt_fname t = 0) (map fst pp) /\
                              bg_bipart (map fst bp) bis /\
                              NoDup (map bt_hash (map fst pp)) /\
                              Forall (bg_tol_ok cfg) (map fst pp);
@@ -491,11 +500,11 @@ Section BlockGenProofs.
     destruct (bg_iterate state apply snonce cfg g0 pool) as [g1|] eqn:E1; try discriminate.
     destruct (bg_cur_loop state apply snonce (length pool + 2) cfg g1 0) as [g2|] eqn:E2; try discriminate.
     inversion H; subst; clear H.
-    assert (Hi0 : bg_inv cfg st0 (fun t => In t pool) g0).
+    assert (Hi0 : bg_inv cfg st0 (fun t => In t pool /\ bt_fname t = 0) g0).
     { constructor; simpl; auto; try constructor; try tauto.
       - constructor.
       - constructor. }
-    pose proof (bg_iterate_inv cfg st0 _ pool g0 g1 (fun t Ht => Ht) Hi0 E1) as Hi1.
+    pose proof (bg_iterate_inv cfg st0 _ pool g0 g1 (fun t Ht Hf => conj Ht Hf) Hi0 E1) as Hi1.
     pose proof (bg_cur_loop_inv cfg st0 _ _ _ _ _ Hi1 E2) as Hi2.
     rewrite (bg_trim_id cfg st0 _ g2 Hi2).
     destruct (bg_builtins_spec cfg st0 bis g2 (iv_replay _ _ _ _ Hi2)) as [Hr [_ [bp [Hb Hp]]]].
@@ -520,16 +529,16 @@ Section BlockGenProofs.
     destruct (bg_iterate state apply snonce cfg g0 pool) as [g1|] eqn:E1; try discriminate.
     destruct (bg_cur_loop state apply snonce (length pool + 2) cfg g1 0) as [g2|] eqn:E2; try discriminate.
     inversion H; subst; clear H.
-    assert (Hi0 : bg_inv cfg st0 (fun t => In t pool) g0).
+    assert (Hi0 : bg_inv cfg st0 (fun t => In t pool /\ bt_fname t = 0) g0).
     { constructor; simpl; auto; try constructor; try tauto.
       - constructor.
       - constructor. }
     assert (Hc0 : bg_cinv cfg bic g0).
     { split; [constructor|]. exists 0. simpl. repeat split; auto; lia. }
-    pose proof (bg_iterate_inv cfg st0 _ pool g0 g1 (fun t Ht => Ht) Hi0 E1) as Hi1.
+    pose proof (bg_iterate_inv cfg st0 _ pool g0 g1 (fun t Ht Hf => conj Ht Hf) Hi0 E1) as Hi1.
     pose proof (bg_iterate_cinv cfg bic Hmax Hbic0 pool g0 g1 Hpc Hc0 E1) as Hc1.
     pose proof (bg_cur_loop_inv cfg st0 _ _ _ _ _ Hi1 E2) as Hi2.
-    pose proof (bg_cur_loop_cinv cfg st0 _ bic Hmax Hbic0 _ _ _ _ (fun t c Ht => Hpc t c Ht) Hi1 Hc1 E2) as Hc2.
+    pose proof (bg_cur_loop_cinv cfg st0 _ bic Hmax Hbic0 _ _ _ _ (fun t c Ht => Hpc t c (proj1 Ht)) Hi1 Hc1 E2) as Hc2.
     rewrite (bg_trim_id cfg st0 _ g2 Hi2).
     destruct (bg_builtins_spec cfg st0 bis g2 (iv_replay _ _ _ _ Hi2)) as [_ [_ [bp [Hbk Hp]]]].
     simpl. rewrite Hbk, map_app.
@@ -563,7 +572,7 @@ Section BlockGenProofs.
         pose proof (bg_sub_in _ _ (bg_bipart_sub bt_hash _ _ (fun _ _ => eq_refl) Hbp) _ Hy) as Hz.
         apply in_map_iff in Hz. destruct Hz as [b0 [Hb0 Hin0]].
         rewrite Forall_forall in Hpool.
-        apply (bo_fresh _ _ _ _ Hb t b0 (Hpool _ Hin) Hin0). congruence. }
+        apply (bo_fresh _ _ _ _ Hb t b0 (proj1 (Hpool _ Hin)) Hin0). congruence. }
     rewrite H1. simpl.
     (* 2. every transaction is within the tolerance and valid *)
     assert (H2 : forallb (fun t => bg_within (bc_bdate cfg) (bt_cdate t) (bc_tol cfg) && bt_valid t)
@@ -571,7 +580,7 @@ Section BlockGenProofs.
     { apply forallb_forall. intros t Ht. rewrite Etx in Ht. apply in_app_or in Ht.
       apply andb_true_iff. destruct Ht as [Ht|Ht].
       - rewrite Forall_forall in Htol, Hpool. split; [apply Htol; auto|].
-        apply (po_valid _ Hp). apply Hpool; auto.
+        apply (po_valid _ Hp). apply (proj1 (Hpool _ Ht)).
       - pose proof (bg_bipart_forall (bg_tol_ok cfg) _ _ (fun b n Hx => Hx) Hbp (bo_tol _ _ _ _ Hb)) as Ha.
         pose proof (bg_bipart_forall (fun b => bt_valid b = true) _ _ (fun b n Hx => Hx) Hbp (bo_valid _ _ _ _ Hb)) as Hv.
         rewrite Forall_forall in Ha, Hv. split; [apply Ha|apply Hv]; auto. }
@@ -582,10 +591,10 @@ Section BlockGenProofs.
       rewrite (bg_builtin_names_none (map fst pp)).
       - simpl. eapply bg_sub_nodup; [|apply (bo_names _ _ _ _ Hb)].
         unfold bg_builtin_names. apply bg_sub_filter. apply bg_bipart_sub; auto.
-      - rewrite Forall_forall in *. intros t Ht. apply (po_names _ Hp). apply Hpool; auto. }
+      - rewrite Forall_forall in *. intros t Ht. apply (proj2 (Hpool _ Ht)). }
     rewrite H3. simpl.
     (* 4. cost *)
-    rewrite (bg_sum_costs_exact _ 0 s Hcok Hs) by lia. simpl.
+    rewrite (bg_ver_costs_exact _ _ 0 s Hcok Hs) by lia. simpl.
     destruct (Z.ltb_spec (bc_maxcost cfg) s); [lia|].
     (* 5. state replay, root, outputs *)
     rewrite Hrep. rewrite Hroot, Z.eqb_refl. simpl.
@@ -606,14 +615,14 @@ Section BlockGenProofs.
       pose proof (bg_sub_in _ _ (bg_bipart_sub bt_hash _ _ (fun _ _ => eq_refl) Hbp) _ Hy) as Hz.
       apply in_map_iff in Hz. destruct Hz as [b0 [Hb0 Hin0]].
       rewrite Forall_forall in Hpool.
-      apply (bo_fresh _ _ _ _ Hb t b0 (Hpool _ Hin) Hin0). congruence.
+      apply (bo_fresh _ _ _ _ Hb t b0 (proj1 (Hpool _ Hin)) Hin0). congruence.
   Qed.
 
   (* the pool part alone never holds a transaction twice, whatever the built-ins are *)
   Theorem bg_no_dup_pool_part cfg st0 pool bis b :
     bg_generate state apply snonce root chg cfg st0 pool bis = GenOk b ->
     exists pp bp, bk_txns b = pp ++ bp /\ NoDup (map bt_hash (map fst pp)) /\
-                  Forall (fun t => In t pool) (map fst pp) /\ bg_bipart (map fst bp) bis.
+                  Forall (fun t => In t pool /\ bt_fname t = 0) (map fst pp) /\ bg_bipart (map fst bp) bis.
   Proof.
     intros Hg.
     destruct (bg_generate_facts _ _ _ _ _ Hg) as [[pp [bp [Hsplit [Hpool [Hbp [Hnd Htol]]]]]] _].
@@ -648,10 +657,10 @@ Section BlockGenProofs.
      most once when the pool does not use built-in names *)
   Theorem bg_builtin_at_most_once cfg st0 pool bis b :
     bg_generate state apply snonce root chg cfg st0 pool bis = GenOk b ->
-    (forall t, In t pool -> bt_fname t = 0) -> NoDup (bg_builtin_names bis) ->
+    NoDup (bg_builtin_names bis) ->
     forall k, k <> 0 -> (bg_count k (map bt_fname (map fst (bk_txns b))) <= 1)%nat.
   Proof.
-    intros Hg Hn Hnd k Hk.
+    intros Hg Hnd k Hk.
     destruct (bg_generate_facts _ _ _ _ _ Hg) as [[pp [bp [Hsplit [Hpool [Hbp _]]]]] _].
     assert (Hc : forall l, bg_count k (map bt_fname l) = bg_count k (bg_builtin_names l)).
     { unfold bg_builtin_names. induction l as [|t r IH]; simpl; auto.
@@ -663,7 +672,7 @@ Section BlockGenProofs.
     rewrite (bg_builtin_names_none (map fst pp)).
     - simpl. eapply bg_sub_nodup; [|apply Hnd].
       unfold bg_builtin_names. apply bg_sub_filter. apply bg_bipart_sub; auto.
-    - rewrite Forall_forall in *. intros t Ht. apply Hn. apply Hpool; auto.
+    - rewrite Forall_forall in *. intros t Ht. apply (proj2 (Hpool _ Ht)).
   Qed.
 
   (* ---------- per-sender nonce continuity ---------- *)
@@ -705,7 +714,8 @@ Section BlockGenProofs.
       - unfold bg_iter_step in He.
         destruct (bt_valbig t); try discriminate.
         destruct (bt_cost t) as [c|]; [|apply (IH g); auto].
-        destruct (bc_maxcost cfg <=? bg_wrap (ti_cost (gs_tii g) + c)); [apply (IH g); auto|].
+        destruct (negb (bt_fname t =? 0)); [apply (IH (bg_mark_invalid state g t)); auto|].
+        destruct (bg_wrap (bc_maxcost cfg - ti_cost (gs_tii g)) <=? c); [apply (IH g); auto|].
         destruct (process cfg g t) as [g2 ok] eqn:Ep.
         pose proof (bg_ninv_process _ _ _ _ Hi Ep) as Hi2.
         destruct ok; simpl in He.
@@ -723,7 +733,7 @@ Section BlockGenProofs.
       destruct (nth_error (ti_current (gs_tii g)) i) as [t|] eqn:En; [|inversion He; subst; auto].
       destruct (negb _); [inversion He; subst; auto|].
       destruct (bt_cost t) as [c|]; [|inversion He; subst; auto].
-      destruct (bc_maxcost cfg <=? bg_wrap (ti_cost (gs_tii g) + c)); [inversion He; subst; auto|].
+      destruct (bg_wrap (bc_maxcost cfg - ti_cost (gs_tii g)) <=? c); [inversion He; subst; auto|].
       destruct (process cfg g t) as [g2 ok] eqn:Ep.
       pose proof (bg_ninv_process _ _ _ _ Hi Ep) as Hi2.
       destruct ok.
@@ -771,12 +781,12 @@ Section BlockGenProofs.
       destruct (bg_iterate state apply snonce cfg g0 pool) as [g1|] eqn:E1; try discriminate.
       destruct (bg_cur_loop state apply snonce (length pool + 2) cfg g1 0) as [g2|] eqn:E2; try discriminate.
       inversion H; subst; clear H. simpl.
-      assert (Hi0 : bg_inv cfg st0 (fun t => In t pool) g0).
+      assert (Hi0 : bg_inv cfg st0 (fun t => In t pool /\ bt_fname t = 0) g0).
       { constructor; simpl; auto; try constructor; try tauto.
         - constructor.
         - constructor. }
       assert (Hn0 : bg_ninv g0) by (split; simpl; auto).
-      pose proof (bg_iterate_inv cfg st0 _ pool g0 g1 (fun t Ht => Ht) Hi0 E1) as Hi1.
+      pose proof (bg_iterate_inv cfg st0 _ pool g0 g1 (fun t Ht Hf => conj Ht Hf) Hi0 E1) as Hi1.
       pose proof (bg_cur_loop_inv cfg st0 _ _ _ _ _ Hi1 E2) as Hi2.
       pose proof (bg_iterate_ninv _ _ _ Hn0 E1) as Hn1.
       pose proof (bg_cur_loop_ninv _ _ _ _ Hn1 E2) as Hn2.
